@@ -296,33 +296,33 @@ package memtable
 //@ func (*Iterator).Seek
 //@   safety[C18]
 //@   requires[INV] ItOK(it)
-//@   ensures[C18] it.current == nil || (it.list.in[it.current] && !blt(nkey(it.current), bstr(key)) && Vis(it, it.current))
-//@   ensures[C18] forall m *node :: it.list.in[m] && !blt(nkey(m), bstr(key)) && Vis(it, m) ==> it.current != nil && (m == it.current || Before(it.current, m))
+//@   ensures[C18,C05] it.current == nil || (it.list.in[it.current] && !blt(nkey(it.current), bstr(key)) && Vis(it, it.current))
+//@   ensures[C18,C05] forall m *node :: it.list.in[m] && !blt(nkey(m), bstr(key)) && Vis(it, m) ==> it.current != nil && (m == it.current || Before(it.current, m))
 //@ loop (*Iterator).Seek#1
-//@   invariant[C18] ItOK(it) && 0 - 1 <= level && level < height && height <= 12
-//@   invariant[C18] current == it.list.head || (it.list.in[current] && blt(nkey(current), bstr(key)))
-//@   invariant[C18] level < height - 1 ==> (load(current.next[level+1]) == nil || !blt(nkey(load(current.next[level+1])), bstr(key)))
+//@   invariant[C18,C05] ItOK(it) && 0 - 1 <= level && level < height && height <= 12
+//@   invariant[C18,C05] current == it.list.head || (it.list.in[current] && blt(nkey(current), bstr(key)))
+//@   invariant[C18,C05] level < height - 1 ==> (load(current.next[level+1]) == nil || !blt(nkey(load(current.next[level+1])), bstr(key)))
 //@ loop (*Iterator).Seek#2
-//@   invariant[C18] ItOK(it) && 0 <= level && level < height && height <= 12 && next == load(current.next[level])
-//@   invariant[C18] current == it.list.head || (it.list.in[current] && blt(nkey(current), bstr(key)))
+//@   invariant[C18,C05] ItOK(it) && 0 <= level && level < height && height <= 12 && next == load(current.next[level])
+//@   invariant[C18,C05] current == it.list.head || (it.list.in[current] && blt(nkey(current), bstr(key)))
 //@ loop (*Iterator).Seek#3
-//@   invariant[C18] ItOK(it) && (it.current == nil || (it.list.in[it.current] && !blt(nkey(it.current), bstr(key))))
-//@   invariant[C18] forall m *node :: it.list.in[m] && !blt(nkey(m), bstr(key)) && Vis(it, m) ==> it.current != nil && (m == it.current || Before(it.current, m))
+//@   invariant[C18,C05] ItOK(it) && (it.current == nil || (it.list.in[it.current] && !blt(nkey(it.current), bstr(key))))
+//@   invariant[C18,C05] forall m *node :: it.list.in[m] && !blt(nkey(m), bstr(key)) && Vis(it, m) ==> it.current != nil && (m == it.current || Before(it.current, m))
 //@ func (*Iterator).SeekToFirst
 //@   safety[C18]
 //@   requires[INV] ItOK(it)
-//@   ensures[C18] it.current == nil || (it.list.in[it.current] && Vis(it, it.current))
-//@   ensures[C18] forall m *node :: it.list.in[m] && Vis(it, m) ==> it.current != nil && (m == it.current || Before(it.current, m))
+//@   ensures[C18,C05] it.current == nil || (it.list.in[it.current] && Vis(it, it.current))
+//@   ensures[C18,C05] forall m *node :: it.list.in[m] && Vis(it, m) ==> it.current != nil && (m == it.current || Before(it.current, m))
 //@ loop (*Iterator).SeekToFirst#1
-//@   invariant[C18] ItOK(it) && (it.current == nil || it.list.in[it.current])
-//@   invariant[C18] forall m *node :: it.list.in[m] && Vis(it, m) ==> it.current != nil && (m == it.current || Before(it.current, m))
+//@   invariant[C18,C05] ItOK(it) && (it.current == nil || it.list.in[it.current])
+//@   invariant[C18,C05] forall m *node :: it.list.in[m] && Vis(it, m) ==> it.current != nil && (m == it.current || Before(it.current, m))
 //@ func (*Iterator).Next
 //@   safety[C18]
 //@   requires[INV] ItOK(it)
 //@   requires it.current == nil || Member(it.list, it.current)
-//@   ensures[C18] it.current == nil || (it.list.in[it.current] && Vis(it, it.current))
-//@   ensures[C18] old(it.current) != nil ==> (forall m *node :: it.list.in[m] && Vis(it, m) && Lt(it.list, old(it.current), m) ==> it.current != nil && (m == it.current || Before(it.current, m)))
-//@   ensures[C18] old(it.current) != nil && it.current != nil ==> Lt(it.list, old(it.current), it.current)
+//@   ensures[C18,C05] it.current == nil || (it.list.in[it.current] && Vis(it, it.current))
+//@   ensures[C18,C05] old(it.current) != nil ==> (forall m *node :: it.list.in[m] && Vis(it, m) && Lt(it.list, old(it.current), m) ==> it.current != nil && (m == it.current || Before(it.current, m)))
+//@   ensures[C18,C05] old(it.current) != nil && it.current != nil ==> Lt(it.list, old(it.current), it.current)
 //@ loop (*Iterator).Next#1
-//@   invariant[C18] ItOK(it) && (it.current == nil || (it.list.in[it.current] && Lt(it.list, old(it.current), it.current)))
-//@   invariant[C18] forall m *node :: it.list.in[m] && Vis(it, m) && Lt(it.list, old(it.current), m) ==> it.current != nil && (m == it.current || Before(it.current, m))
+//@   invariant[C18,C05] ItOK(it) && (it.current == nil || (it.list.in[it.current] && Lt(it.list, old(it.current), it.current)))
+//@   invariant[C18,C05] forall m *node :: it.list.in[m] && Vis(it, m) && Lt(it.list, old(it.current), m) ==> it.current != nil && (m == it.current || Before(it.current, m))
